@@ -1,8 +1,8 @@
 (* ImplFacts.v — facts about the container methods of the v5 model: the array index arithmetic of
-   partialArray.get/set/add/remove against list insertion/deletion of the reference, for EVERY
-   length and index, and the absence of the panics the Go slice expressions could raise. *)
+   partialArray.get/set/add/remove against the reference's list operations, for EVERY length and
+   index, and the absence of the panics the Go slice expressions could raise. *)
 From Coq Require Import Lia.
-From JP Require Import Bytes Json Pointer Rfc6902 ImplV5 DecodeFacts.
+From JP Require Import Bytes Json Pointer Rfc6902 ImplV5 DecodeFacts JsonFacts.
 
 Local Open Scope Z_scope.
 
@@ -15,10 +15,254 @@ Proof.
     assert (0 <= Z.of_N (bn c - 48)) by apply N2Z.is_nonneg. lia.
 Qed.
 
-Lemma canonical_nat_nonneg t n : canonical_nat t = Some n -> 0 <= n.
+Lemma canonical_nat_digits t n : canonical_nat t = Some n -> digits_val 0 t = Some n /\ 0 <= n /\
+  exists c r, t = c :: r /\ is_digit c = true.
 Proof.
   unfold canonical_nat. destruct t as [|c r]; try discriminate.
-  destruct c; try discriminate; destruct r; try (intro H; inversion H; lia);
-    try (match goal with |- context [if ?b then _ else _] => destruct b end; try discriminate;
-         intro H; eapply digits_val_nonneg in H; lia).
+  intro H.
+  assert (D : is_digit c = true /\ digits_val 0 (c :: r) = Some n).
+  { destruct (is_digit19 c && forallb is_digit r) eqn:E.
+    - assert (is_digit c = true).
+      { apply andb_prop in E as [E _]. unfold is_digit19, is_digit in *.
+        apply andb_prop in E as [E1 E2]. apply andb_true_intro. split; auto.
+        apply N.leb_le in E1. apply N.leb_le. lia. }
+      destruct c; try discriminate; destruct r; try (inversion H; subst; split; auto; reflexivity); auto.
+    - destruct c; try discriminate; destruct r; try discriminate. inversion H. split; reflexivity. }
+  destruct D as [D1 D2]. split; auto. split; [eapply digits_val_nonneg; eauto; lia | eauto].
+Qed.
+
+Definition in_int64 (v : Z) : option Z :=
+  if (int64_min <=? v) && (v <=? int64_max) then Some v else None.
+
+Lemma atoi_unsigned c r : is_digit c = true ->
+  atoi (c :: r) = match digits_val 0 (c :: r) with Some v => in_int64 v | None => None end.
+Proof. intro H. destruct c; try discriminate; reflexivity. Qed.
+
+Lemma atoi_minus c r :
+  atoi (x2d :: c :: r) = match digits_val 0 (c :: r) with Some v => in_int64 (- v) | None => None end.
+Proof. reflexivity. Qed.
+
+Lemma atoi_canonical_nat t n : canonical_nat t = Some n -> n <= int64_max -> atoi t = Some n.
+Proof.
+  intros H Hn. apply canonical_nat_digits in H as [D [N0 [c [r [-> Dc]]]]].
+  rewrite atoi_unsigned, D by auto. unfold in_int64.
+  replace (int64_min <=? n) with true by (symmetry; apply Z.leb_le; unfold int64_min; lia).
+  replace (n <=? int64_max) with true by (symmetry; apply Z.leb_le; lia). reflexivity.
+Qed.
+
+Lemma atoi_canonical_nat_big t n : canonical_nat t = Some n -> int64_max < n -> atoi t = None.
+Proof.
+  intros H Hn. apply canonical_nat_digits in H as [D [N0 [c [r [-> Dc]]]]].
+  rewrite atoi_unsigned, D by auto. unfold in_int64.
+  replace (n <=? int64_max) with false by (symmetry; apply Z.leb_gt; lia).
+  now rewrite andb_false_r.
+Qed.
+
+Lemma canonical_neg_inv t k : canonical_neg t = Some k ->
+  0 < k /\ exists c r, t = x2d :: c :: r /\ digits_val 0 (c :: r) = Some k.
+Proof.
+  unfold canonical_neg. destruct t as [|c r]; try discriminate.
+  destruct c; try discriminate.
+  destruct (canonical_nat r) as [k'|] eqn:E; try discriminate.
+  destruct (0 <? k') eqn:P; try discriminate. intro H; inversion H; subst k'.
+  apply Z.ltb_lt in P. split; auto.
+  apply canonical_nat_digits in E as [D [N0 [c [r' [-> Dc]]]]]. eauto.
+Qed.
+
+Lemma atoi_canonical_neg t k : canonical_neg t = Some k -> k <= int64_max -> atoi t = Some (- k) /\ 0 < k.
+Proof.
+  intros H Hk. apply canonical_neg_inv in H as [P [c [r [-> D]]]]. split; auto.
+  rewrite atoi_minus, D. unfold in_int64.
+  replace (int64_min <=? - k) with true by (symmetry; apply Z.leb_le; unfold int64_min, int64_max in *; lia).
+  replace (- k <=? int64_max) with true by (symmetry; apply Z.leb_le; unfold int64_max; lia). reflexivity.
+Qed.
+
+Lemma atoi_canonical_neg_big t k : canonical_neg t = Some k -> int64_max < k -> atoi t = None \/ atoi t = Some (- k).
+Proof.
+  intros H Hk. apply canonical_neg_inv in H as [P [c [r [-> D]]]].
+  rewrite atoi_minus, D. unfold in_int64.
+  destruct ((int64_min <=? - k) && (- k <=? int64_max)); auto.
+Qed.
+
+Lemma canonical_nat_not_neg t n k : canonical_nat t = Some n -> canonical_neg t = Some k -> False.
+Proof.
+  intros H1 H2. apply canonical_nat_digits in H1 as [_ [_ [c [r [-> Dc]]]]].
+  unfold canonical_neg in H2. destruct c; try discriminate.
+Qed.
+
+Lemma canonical_not_dash t n : canonical_nat t = Some n -> bseq t [x2d] = false.
+Proof.
+  intro H. apply canonical_nat_digits in H as [_ [_ [c [r [-> Dc]]]]].
+  destruct c; try discriminate; reflexivity.
+Qed.
+
+Lemma canonical_neg_not_dash t k : canonical_neg t = Some k -> bseq t [x2d] = false.
+Proof.
+  unfold canonical_neg. destruct t as [|c r]; try discriminate. destruct c; try discriminate.
+  destruct r; [discriminate|]. intros _. reflexivity.
+Qed.
+
+(* ---- the dialect of an options record ---- *)
+Definition dia (o : opts) : dialect := mkDialect (o_neg o).
+
+(* a Go slice is shorter than 2^63 *)
+Definition len_ok {A} (l : list A) : Prop := Z.of_nat (length l) < int64_max.
+
+Lemma zlen_eq {A} (l : list A) : ImplV5.zlen l = Rfc6902.zlen l.
+Proof. reflexivity. Qed.
+
+Lemma zlen_nonneg {A} (l : list A) : 0 <= ImplV5.zlen l.
+Proof. unfold ImplV5.zlen. lia. Qed.
+
+(* ---- get: a canonical token resolves exactly as in the reference ---- *)
+Definition tok_canonical (t : bytes) : Prop :=
+  (exists n, canonical_nat t = Some n) \/ (exists k, canonical_neg t = Some k).
+
+Theorem resolve_idx_get_ref o {A} (l : list A) t :
+  len_ok l -> tok_canonical t ->
+  match idx_existing (dia o) (Rfc6902.zlen l) t with
+  | Some i => resolve_idx_get o (ImplV5.zlen l) t = Ok i /\ (i < length l)%nat
+  | None => exists e, resolve_idx_get o (ImplV5.zlen l) t = Err e /\ (e = EInvalidIndex \/ e = EAtoi)
+  end.
+Proof.
+  intros L [[n Hn]|[k Hk]]; unfold idx_existing, resolve_idx_get, len_ok, Rfc6902.zlen, ImplV5.zlen, dia in *; simpl.
+  - rewrite Hn. pose proof (canonical_nat_digits _ _ Hn) as [_ [N0 _]].
+    destruct (n <? Z.of_nat (length l)) eqn:E.
+    + apply Z.ltb_lt in E. rewrite (atoi_canonical_nat _ _ Hn) by lia.
+      replace (n <? 0) with false by (symmetry; apply Z.ltb_ge; lia).
+      replace (Z.of_nat (length l) <=? n) with false by (symmetry; apply Z.leb_gt; lia).
+      split; auto. lia.
+    + apply Z.ltb_ge in E. destruct (Z_le_gt_dec n int64_max).
+      * rewrite (atoi_canonical_nat _ _ Hn) by lia.
+        replace (n <? 0) with false by (symmetry; apply Z.ltb_ge; lia).
+        replace (Z.of_nat (length l) <=? n) with true by (symmetry; apply Z.leb_le; lia). eauto.
+      * rewrite (atoi_canonical_nat_big _ _ Hn) by lia. eauto.
+  - destruct (canonical_nat t) eqn:Hn; [exfalso; eapply canonical_nat_not_neg; eauto|]. rewrite Hk.
+    destruct (Z_le_gt_dec k int64_max).
+    + destruct (atoi_canonical_neg _ _ Hk) as [At Kp]; auto. rewrite At.
+      replace (- k <? 0) with true by (symmetry; apply Z.ltb_lt; lia).
+      destruct (o_neg o); simpl; [|eauto].
+      destruct (k <=? Z.of_nat (length l)) eqn:E.
+      * apply Z.leb_le in E.
+        replace (- k <? - Z.of_nat (length l)) with false by (symmetry; apply Z.ltb_ge; lia).
+        replace (Z.of_nat (length l) <=? - k + Z.of_nat (length l)) with false by (symmetry; apply Z.leb_gt; lia).
+        split; [f_equal; f_equal; lia | lia].
+      * apply Z.leb_gt in E.
+        replace (- k <? - Z.of_nat (length l)) with true by (symmetry; apply Z.ltb_lt; lia). eauto.
+    + assert ((k <=? Z.of_nat (length l)) = false) by (apply Z.leb_gt; lia). rewrite H, andb_false_r.
+      destruct (atoi_canonical_neg_big _ _ Hk) as [At|At]; [lia| |]; rewrite At; [eauto|].
+      replace (- k <? 0) with true by (symmetry; apply Z.ltb_lt; lia).
+      destruct (o_neg o); simpl; [|eauto].
+      replace (- k <? - Z.of_nat (length l)) with true by (symmetry; apply Z.ltb_lt; lia). eauto.
+Qed.
+
+(* ---- add: position of insertion ---- *)
+Definition add_tok (t : bytes) : Prop := t = [x2d] \/ tok_canonical t.
+
+Theorem ary_add_never_panics o ns key v : ary_add o ns key v <> Panic.
+Proof.
+  unfold ary_add. destruct (bseq key [x2d]); [discriminate|].
+  destruct (atoi key) as [idx|]; [|discriminate].
+  pose proof (zlen_nonneg ns) as L.
+  destruct (ImplV5.zlen ns + 1 <=? idx) eqn:E1; [discriminate|]. apply Z.leb_gt in E1.
+  destruct (idx <? 0) eqn:E2; [|discriminate]. apply Z.ltb_lt in E2.
+  destruct (o_neg o); simpl; [|discriminate].
+  destruct (idx <? - (ImplV5.zlen ns + 1)) eqn:E3; [discriminate|]. apply Z.ltb_ge in E3.
+  replace (ImplV5.zlen ns <? idx + (ImplV5.zlen ns + 1)) with false by (symmetry; apply Z.ltb_ge; lia).
+  discriminate.
+Qed.
+
+Theorem ary_add_ref o (ns : list node) t v :
+  len_ok ns -> add_tok t ->
+  match idx_insert (dia o) (Rfc6902.zlen ns) t with
+  | Some i => ary_add o ns t v = Ok (insert_at i v ns) /\ (i <= length ns)%nat
+  | None => exists e, ary_add o ns t v = Err e /\ (e = EInvalidIndex \/ e = EAtoi)
+  end.
+Proof.
+  intros L [->|[[n Hn]|[k Hk]]]; unfold idx_insert, ary_add, len_ok, Rfc6902.zlen, ImplV5.zlen, dia, insert_at in *; simpl.
+  - split; [|lia]. rewrite Nat2Z.id. now rewrite firstn_all, skipn_all.
+  - rewrite (canonical_not_dash _ _ Hn), Hn. pose proof (canonical_nat_digits _ _ Hn) as [_ [N0 _]].
+    destruct (n <=? Z.of_nat (length ns)) eqn:E.
+    + apply Z.leb_le in E. rewrite (atoi_canonical_nat _ _ Hn) by lia.
+      replace (Z.of_nat (length ns) + 1 <=? n) with false by (symmetry; apply Z.leb_gt; lia).
+      replace (n <? 0) with false by (symmetry; apply Z.ltb_ge; lia).
+      split; auto. lia.
+    + apply Z.leb_gt in E. destruct (Z_le_gt_dec n int64_max).
+      * rewrite (atoi_canonical_nat _ _ Hn) by lia.
+        replace (Z.of_nat (length ns) + 1 <=? n) with true by (symmetry; apply Z.leb_le; lia). eauto.
+      * rewrite (atoi_canonical_nat_big _ _ Hn) by lia. eauto.
+  - rewrite (canonical_neg_not_dash _ _ Hk).
+    destruct (canonical_nat t) eqn:Hn; [exfalso; eapply canonical_nat_not_neg; eauto|]. rewrite Hk.
+    destruct (Z_le_gt_dec k int64_max).
+    + destruct (atoi_canonical_neg _ _ Hk) as [At Kp]; auto. rewrite At.
+      replace (Z.of_nat (length ns) + 1 <=? - k) with false by (symmetry; apply Z.leb_gt; lia).
+      replace (- k <? 0) with true by (symmetry; apply Z.ltb_lt; lia).
+      destruct (o_neg o); simpl; [|eauto].
+      destruct (k <=? Z.of_nat (length ns) + 1) eqn:E.
+      * apply Z.leb_le in E.
+        replace (- k <? - (Z.of_nat (length ns) + 1)) with false by (symmetry; apply Z.ltb_ge; lia).
+        replace (Z.of_nat (length ns) <? - k + (Z.of_nat (length ns) + 1)) with false by (symmetry; apply Z.ltb_ge; lia).
+        replace (Z.to_nat (- k + (Z.of_nat (length ns) + 1))) with (Z.to_nat (Z.of_nat (length ns) + 1 - k)) by (f_equal; lia).
+        split; auto. lia.
+      * apply Z.leb_gt in E.
+        replace (- k <? - (Z.of_nat (length ns) + 1)) with true by (symmetry; apply Z.ltb_lt; lia). eauto.
+    + assert ((k <=? Z.of_nat (length ns) + 1) = false) by (apply Z.leb_gt; unfold int64_max in *; lia).
+      rewrite H, andb_false_r.
+      destruct (atoi_canonical_neg_big _ _ Hk) as [At|At]; [lia| |]; rewrite At; [eauto|].
+      replace (Z.of_nat (length ns) + 1 <=? - k) with false by (symmetry; apply Z.leb_gt; lia).
+      replace (- k <? 0) with true by (symmetry; apply Z.ltb_lt; lia).
+      destruct (o_neg o); simpl; [|eauto].
+      replace (- k <? - (Z.of_nat (length ns) + 1)) with true by (symmetry; apply Z.ltb_lt; unfold int64_max in *; lia). eauto.
+Qed.
+
+(* ---- remove (AllowMissingPathOnRemove off) ---- *)
+Theorem ary_remove_ref o (ns : list node) t :
+  o_allow o = false -> len_ok ns -> tok_canonical t ->
+  match idx_existing (dia o) (Rfc6902.zlen ns) t with
+  | Some i => ary_remove o ns t = Ok (remove_at i ns) /\ (i < length ns)%nat
+  | None => exists e, ary_remove o ns t = Err e /\ (e = EInvalidIndex \/ e = EAtoi)
+  end.
+Proof.
+  intros Al L [[n Hn]|[k Hk]]; unfold idx_existing, ary_remove, len_ok, Rfc6902.zlen, ImplV5.zlen, dia, remove_at in *; simpl; rewrite Al.
+  - rewrite Hn. pose proof (canonical_nat_digits _ _ Hn) as [_ [N0 _]].
+    destruct (n <? Z.of_nat (length ns)) eqn:E.
+    + apply Z.ltb_lt in E. rewrite (atoi_canonical_nat _ _ Hn) by lia.
+      replace (Z.of_nat (length ns) <=? n) with false by (symmetry; apply Z.leb_gt; lia).
+      replace (n <? 0) with false by (symmetry; apply Z.ltb_ge; lia).
+      split; auto. lia.
+    + apply Z.ltb_ge in E. destruct (Z_le_gt_dec n int64_max).
+      * rewrite (atoi_canonical_nat _ _ Hn) by lia.
+        replace (Z.of_nat (length ns) <=? n) with true by (symmetry; apply Z.leb_le; lia). eauto.
+      * rewrite (atoi_canonical_nat_big _ _ Hn) by lia. eauto.
+  - destruct (canonical_nat t) eqn:Hn; [exfalso; eapply canonical_nat_not_neg; eauto|]. rewrite Hk.
+    destruct (Z_le_gt_dec k int64_max).
+    + destruct (atoi_canonical_neg _ _ Hk) as [At Kp]; auto. rewrite At.
+      replace (Z.of_nat (length ns) <=? - k) with false by (symmetry; apply Z.leb_gt; lia).
+      replace (- k <? 0) with true by (symmetry; apply Z.ltb_lt; lia).
+      destruct (o_neg o); simpl; [|eauto].
+      destruct (k <=? Z.of_nat (length ns)) eqn:E.
+      * apply Z.leb_le in E.
+        replace (- k <? - Z.of_nat (length ns)) with false by (symmetry; apply Z.ltb_ge; lia).
+        replace (Z.to_nat (- k + Z.of_nat (length ns))) with (Z.to_nat (Z.of_nat (length ns) - k)) by (f_equal; lia).
+        split; auto. lia.
+      * apply Z.leb_gt in E.
+        replace (- k <? - Z.of_nat (length ns)) with true by (symmetry; apply Z.ltb_lt; lia). eauto.
+    + assert ((k <=? Z.of_nat (length ns)) = false) by (apply Z.leb_gt; lia). rewrite H, andb_false_r.
+      destruct (atoi_canonical_neg_big _ _ Hk) as [At|At]; [lia| |]; rewrite At; [eauto|].
+      replace (Z.of_nat (length ns) <=? - k) with false by (symmetry; apply Z.leb_gt; lia).
+      replace (- k <? 0) with true by (symmetry; apply Z.ltb_lt; lia).
+      destruct (o_neg o); simpl; [|eauto].
+      replace (- k <? - Z.of_nat (length ns)) with true by (symmetry; apply Z.ltb_lt; lia). eauto.
+Qed.
+
+(* ---- set, after a successful get (Patch.replace calls get first) ---- *)
+Theorem ary_set_after_get o (ns : list node) t v i :
+  resolve_idx_get o (ImplV5.zlen ns) t = Ok i -> ary_set o ns t v = Ok (set_at i v ns).
+Proof.
+  unfold resolve_idx_get, ary_set, set_at. destruct (atoi t) as [idx|]; [|discriminate].
+  destruct (idx <? 0).
+  - destruct (negb (o_neg o)); [discriminate|].
+    destruct (idx <? - ImplV5.zlen ns); [discriminate|].
+    destruct (ImplV5.zlen ns <=? idx + ImplV5.zlen ns); [discriminate|]. intro H; inversion H. reflexivity.
+  - destruct (ImplV5.zlen ns <=? idx); [discriminate|]. intro H; inversion H. reflexivity.
 Qed.
